@@ -292,26 +292,9 @@ theorem step_preserves_fileOk (cfg : Cfg) (hcfg : HashSafe cfg) (st : St) (pfx :
     refine ⟨?_, hids'⟩
     have hshape := body_shape cfg st pfx c hc hr
     rw [← hr'] at hshape
-    rcases hshape with (hsv | ⟨hf, hg⟩) | ⟨u, hu, hf⟩ | ⟨hcc, hfalse, _⟩
+    rcases hshape with (hsv | ⟨hf, hg⟩) | ⟨hcc, hfalse, _⟩
     · exact fileOk_of_saved hsv hsafe' hids'
     · exact fileOk_of_grow hf (by rw [hr']; exact body_cu cfg st pfx c hc hr) hg hfile
-    · -- register from a too-wild hostmask
-      intro t ht
-      rw [hf] at ht
-      injection ht with ht
-      subst ht
-      refine ⟨?_, Or.inl ?_⟩
-      · intro p hp
-        rcases List.mem_append.mp hp with hp | hp
-        · exact hinv.users p hp
-        · simp only [List.mem_singleton] at hp; subst hp; exact safeUser_hashedOnly
-      · intro p hp x hx
-        rcases List.mem_append.mp hp with hp | hp
-        · refine ⟨p.2, ?_, hx⟩
-          unfold St.user
-          rw [hu]
-          exact dictGet_append_left (dictGet_of_mem_nodup hids.1 hp)
-        · simp only [List.mem_singleton] at hp; subst hp; simp at hx
     · rcases hq hcc with h | h
       · rw [hstep] at h; rw [h] at hfalse; cases hfalse
       · rw [hstep] at h; rw [h]; exact hfile
@@ -577,30 +560,13 @@ theorem step_ownInv {O : Nat → Prop} (cfg : Cfg) (hcfg : HashSafe cfg) (st : S
       have hcu : r.1.cu = st.cu := by rw [hr']; exact body_cu cfg st pfx c hc hr
       have hshape := body_shape cfg st pfx c hc hr
       rw [← hr'] at hshape
-      rcases hshape with (hsv | ⟨hf, _⟩) | ⟨u, hu, hf⟩ | ⟨_, _, hf⟩
+      rcases hshape with (hsv | ⟨hf, _⟩) | ⟨_, _, hf⟩
       · intro db hdb
         rw [hsv] at hdb
         injection hdb with hdb
         subst hdb
         exact ⟨hsafe', Or.inl hm'⟩
       · exact fileOwn_same hf hcu h.file
-      · intro db hdb
-        rw [hf] at hdb
-        injection hdb with hdb
-        subst hdb
-        refine ⟨?_, Or.inl ?_⟩
-        · intro p hp
-          rcases List.mem_append.mp hp with hp | hp
-          · exact h.inv.users p hp
-          · simp only [List.mem_singleton] at hp; subst hp; exact safeUser_hashedOnly
-        · intro id hid
-          obtain ⟨f, hfm, ho⟩ := mem_ownersOf.mp hid
-          rcases List.mem_append.mp hfm with hp | hp
-          · exact h.mem id (mem_owners.mpr ⟨f, hp, ho⟩)
-          · simp only [List.mem_singleton] at hp
-            injection hp with _ hp
-            subst hp
-            simp at ho
       · exact fileOwn_same hf hcu h.file
     unfold step
     cases c with
